@@ -5,7 +5,7 @@ PREFIXES = ("C01-", "final-file-set", "C09-reader-raised", "C02-tmp-files", "C04
 
 
 def run(ctx):
-    cc.run(ctx, PREFIXES, nsim=ctx.pick(40, 1200), nrand=ctx.pick(70, 3000), sim_depth=ctx.pick(12, 16),
+    cc.run(ctx, PREFIXES, nsim=ctx.pick(40, 700), nrand=ctx.pick(70, 1400), sim_depth=ctx.pick(12, 16),
            what="E2: TLC-simulated behaviours of MCDrfChannel executed on DigitalRFWriter/Reader at three realisations of the "
                 "model's file partition; E3: random configurations (all integer/float widths, real/complex, both byte orders, "
                 "1-5 subchannels, rates n/d incl. x/3, x/7, x/1001 and primes near 2^32, cadences down to 1-2 samples per file, "
